@@ -106,7 +106,7 @@ E1_ASSUMPTIONS = [
     "Known finding excluded by construction and counted: the user reverts the template to the stable version before the Rollout controller recorded the release being reverted (see known_findings.json, c07-livelock-revert-to-stable-before-release-observed).",
 ]
 
-def _e1(check, test, quick=480, thorough=16000, pkg="pe1"):
+def _e1(check, test, quick=1600, thorough=24000, pkg="pe1"):
     return {"name": check, "pkg": pkg, "test": test, "quick": rp(quick, 16, timeout=900, shrinktime="30s"), "thorough": rp(thorough, 16, timeout=3000, shrinktime="300s")}
 
 def _e1_entry(title, check, test, rule_extra, nt):
